@@ -69,16 +69,18 @@ Theorem C10_accept_refuted : exists t, dom t = true /\ has_opt_t t = true /\
 Proof. exists w_opt. exact refuted_opt. Qed.
 
 (* ---- names ---- *)
-Theorem C10_names : forall p : proj, has_enum p = false ->
-  type_decls (zod_items p) = type_decls (plain_items p).
+(* the same type and parameter-object names in both modes, for every analysis result (the enum class
+   was repaired by C10-5-zod-enum-alias: Zod-mode enums now have their type alias) *)
+Theorem C10_names : forall p : proj, type_decls (zod_items p) = type_decls (plain_items p).
 Proof. exact names_equal. Qed.
-Theorem C10_names_general : forall (p : proj) (n : str),
-  In n (type_decls (plain_items p)) <-> In n (type_decls (zod_items p)) \/ In n (enum_names p).
-Proof. exact names_general. Qed.
-Theorem C10_names_refuted : exists p, has_enum p = true /\
-  type_decls (plain_items p) = [L "Status"; L "GetParams"] /\ type_decls (zod_items p) = [L "GetParams"] /\
-  v_tags (compare_modules (plain_items p) (zod_items p)) = [TgEnumAlias].
-Proof. exists p_enum. exact refuted_enum. Qed.
+Theorem C10_names_iff : forall (p : proj) (n : str),
+  In n (type_decls (plain_items p)) <-> In n (type_decls (zod_items p)).
+Proof. exact names_iff. Qed.
+(* the former refutation witness (an enum used by a command) now satisfies the property *)
+Theorem C10_names_enum_witness : exists p, has_enum p = true /\
+  type_decls (plain_items p) = [L "Status"; L "GetParams"] /\ type_decls (zod_items p) = [L "Status"; L "GetParams"] /\
+  v_tags (compare_modules (plain_items p) (zod_items p)) = [].
+Proof. exists p_enum. exact enum_witness. Qed.
 (* the schema constants of Zod mode: one per type, one per command with value parameters *)
 Theorem C10_schema_names : forall p : proj, const_order (zod_items p) = schema_consts p.
 Proof. exact zod_consts. Qed.
@@ -110,7 +112,7 @@ Definition C10_shapes_full_statement : Prop := forall (m : mapping) (t : tstruct
               shape_agree (zshape a) (tshape b) = true.
 (* module level: the oracle finds nothing on the model's two modules *)
 Definition C10_modules_full_statement : Prop := forall p : proj,
-  proj_dom p = true -> has_enum p = false ->
+  proj_dom p = true ->
   (forall t, In t (member_types p) -> clean t /\ has_opt_t t = false) ->
   NoDup (type_decls (plain_items p)) ->
   v_tags (compare_modules (plain_items p) (zod_items p)) = [].
@@ -140,8 +142,8 @@ Print Assumptions C10_json_refuted.
 Print Assumptions C10_accept_partial.
 Print Assumptions C10_accept_refuted.
 Print Assumptions C10_names.
-Print Assumptions C10_names_general.
-Print Assumptions C10_names_refuted.
+Print Assumptions C10_names_iff.
+Print Assumptions C10_names_enum_witness.
 Print Assumptions C10_schema_names.
 Print Assumptions C10_keys.
 Print Assumptions C10_keys_params.
